@@ -28,6 +28,7 @@ type CPStmt struct {
 }
 
 type CPFunc struct {
+	Variadic bool   `json:"variadic,omitempty"` // func f(ds ...int): d is ds[0]
 	Method bool     `json:"method,omitempty"`
 	Stmts  []CPStmt `json:"stmts"`
 }
@@ -40,12 +41,14 @@ type CPPlan struct {
 	OptimizeOff bool     `json:"optimize_off,omitempty"`
 	Entry       string   `json:"entry"` // call | eval
 	Rich        bool     `json:"rich_fs,omitempty"`
+	Split       int      `json:"split,omitempty"` // functions with index >= Split (when > 0) live in a second file of the package
 }
 
 var cpSiteKinds = []string{"helper-div", "helper-attr", "local-div", "idx-slice", "idx-string", "slice-bounds", "div", "mod", "nil-set", "nil-get", "nil-method", "nil-map", "nil-func", "panic", "native", "for-cond"}
 
 type cpSite struct {
 	Func int
+	File string
 	Line int
 	Kind string
 	Ctx  string // enclosing constructs: l(oop) i(f) s(witch)
@@ -54,6 +57,8 @@ type cpSite struct {
 }
 
 type cpRendered struct {
+	TextB string // second file (empty when the program is one file)
+	FuncFile []string // file of each function
 	HelperLine map[string]int // line of the single statement of each helper function
 	ML    map[int]bool // lines that open a multi-line call
 	Text  string
@@ -118,9 +123,12 @@ func selF(k int) func() int {
 // records the line of every fault site.
 func cpRender(p *CPPlan) *cpRendered {
 	r := &cpRendered{Sites: map[int]cpSite{}, ML: map[int]bool{}, HelperLine: map[string]int{}}
-	var b strings.Builder
+	var bA, bB strings.Builder
+	b := &bA
 	b.WriteString(cpPrelude)
 	line := strings.Count(cpPrelude, "\n")
+	lineA := 0
+	curFile := "main/a.go"
 	for i, l := range strings.Split(cpPrelude, "\n") {
 		switch strings.TrimSpace(l) {
 		case "return a / b":
@@ -151,7 +159,7 @@ func cpRender(p *CPPlan) *cpRendered {
 				if kind == "mlcall" {
 					kind = "idx-in-multiline-call"
 				}
-				r.Sites[s.Site] = cpSite{Func: fi, Line: l, Kind: kind, Ctx: ctx, Col: len(ind), Lam: lamSeen}
+				r.Sites[s.Site] = cpSite{Func: fi, File: curFile, Line: l, Kind: kind, Ctx: ctx, Col: len(ind), Lam: lamSeen}
 			}
 			id := s.Site
 			switch s.Kind {
@@ -217,6 +225,12 @@ func cpRender(p *CPPlan) *cpRendered {
 					}
 					emit(ind + ")")
 				}
+			case "spreadcall":
+				// f(xs...): the spread form of a call to a variadic function
+				if s.Target > fi && s.Target < len(p.Funcs) && p.Funcs[s.Target].Variadic {
+					emit(ind + fmt.Sprintf("dd%d := []int{d}", line+1))
+					emit(ind + fmt.Sprintf("host.At(%d); r = r + %s", line+1, cpCallExpr(s.Target, &p.Funcs[s.Target], fmt.Sprintf("dd%d...", line))))
+				}
 			case "dotcall":
 				// a method call split after the dot: the call's line is the line of "m("
 				if s.Target > fi && s.Target < len(p.Funcs) && p.Funcs[s.Target].Method {
@@ -272,10 +286,26 @@ func cpRender(p *CPPlan) *cpRendered {
 	}
 	for i := range p.Funcs {
 		f := &p.Funcs[i]
+		if p.Split > 0 && i == p.Split {
+			// the rest of the package lives in a second file with its own line numbers
+			lineA = line
+			b = &bB
+			b.WriteString("package main\nimport \"host\"\n")
+			line = 2
+			curFile = "main/b.go"
+		}
+		r.FuncFile = append(r.FuncFile, curFile)
+		params := "d int"
+		if f.Variadic {
+			params = "ds ...int"
+		}
 		if f.Method {
-			emit(fmt.Sprintf("func (t *T) m%d(d int) int {", i))
+			emit(fmt.Sprintf("func (t *T) m%d(%s) int {", i, params))
 		} else {
-			emit(fmt.Sprintf("func f%d(d int) int {", i))
+			emit(fmt.Sprintf("func f%d(%s) int {", i, params))
+		}
+		if f.Variadic {
+			emit("\td := ds[0]")
 		}
 		lamSeen = false
 		emit(fmt.Sprintf("\thost.Enter(%d)", i))
@@ -285,7 +315,9 @@ func cpRender(p *CPPlan) *cpRendered {
 		emit("\treturn r")
 		emit("}")
 	}
-	r.Text = b.String()
+	_ = lineA
+	r.Text = bA.String()
+	r.TextB = bB.String()
 	return r
 }
 
@@ -312,7 +344,7 @@ func (crashpoint) Describe() core.EngineInfo {
 		Real:       []string{"goatlang compiler positions (newPos, peephole fusion), VM backtrace (mkFunc push/pop), error builder (btErr), via Load/Call/Eval"},
 		Stubs:      []string{"host.Idx/Den/Flag/Fail natives decide the fault instant; host.Enter/Leave/At keep the shadow stack", "SimDisk serves the program"},
 		Assumes:    []string{"one statement per line; call statements carry their own line number as an argument of host.At", "chains that cross a native re-entry (sort comparators) are not generated", "the activation entered by Call has no call-site line (position zero is skipped by the error builder)"},
-		ProbesWant: []string{"fault:helper-div", "fault:helper-attr", "fault:local-div", "long_line", "after_lambda", "fault:idx-slice", "fault:idx-string", "fault:slice-bounds", "fault:div", "fault:mod", "fault:nil-set", "fault:nil-get", "fault:nil-method", "fault:nil-map", "fault:nil-func", "fault:panic", "fault:native", "fault:for-cond", "fault:idx-in-multiline-call", "multiline_call_active", "depth_10plus", "depth_20plus", "in_method", "in_loop", "in_switch", "entry_eval", "optimizer_off"},
+		ProbesWant: []string{"second_file", "spread_call_active", "fault:helper-div", "fault:helper-attr", "fault:local-div", "long_line", "after_lambda", "fault:idx-slice", "fault:idx-string", "fault:slice-bounds", "fault:div", "fault:mod", "fault:nil-set", "fault:nil-get", "fault:nil-method", "fault:nil-map", "fault:nil-func", "fault:panic", "fault:native", "fault:for-cond", "fault:idx-in-multiline-call", "multiline_call_active", "depth_10plus", "depth_20plus", "in_method", "in_loop", "in_switch", "entry_eval", "optimizer_off"},
 	}
 }
 
@@ -359,7 +391,7 @@ func (g *cpGen) stmt0(fi, depth int) CPStmt {
 	switch {
 	case k < 8 || depth >= 2:
 		if k >= 5 && fi+1 < g.nf {
-			st := CPStmt{Kind: core.Pick(g.r, []string{"call", "call", "fcall", "mlcall", "dotcall"}), Target: fi + 1 + g.r.Intn(g.nf-fi-1)}
+			st := CPStmt{Kind: core.Pick(g.r, []string{"call", "call", "fcall", "mlcall", "dotcall", "spreadcall", "spreadcall"}), Target: fi + 1 + g.r.Intn(g.nf-fi-1)}
 			if st.Kind == "mlcall" && g.r.Bool() {
 				g.nextID++
 				st.Site = g.nextID
@@ -395,8 +427,11 @@ func (e crashpoint) genPlan(r *core.PRNG) *CPPlan {
 			p.Depth = 1 + r.Intn(5)
 		}
 	}
+	if g.nf > 2 && r.Chance(1, 2) {
+		p.Split = 1 + r.Intn(g.nf-1)
+	}
 	for i := 0; i < g.nf; i++ {
-		f := CPFunc{Method: i > 0 && r.Chance(1, 3)}
+		f := CPFunc{Method: i > 0 && r.Chance(1, 3), Variadic: i > 0 && r.Chance(1, 4)}
 		n := 1 + r.Intn(4)
 		f.Stmts = g.block(i, n, 0)
 		if i == rec {
@@ -465,6 +500,7 @@ var cpLineRe = regexp.MustCompile(`^\t?(?:(\S+)\(\.\.\.\) )?([^\s:]+):(\d+):(\d+
 
 type cpLoc struct {
 	Func string
+	File string
 	Line int
 }
 
@@ -476,7 +512,7 @@ func cpParse(msg string) (locs []cpLoc, opcode string, ok bool) {
 			return locs, opcode, false
 		}
 		n, _ := strconv.Atoi(m[3])
-		locs = append(locs, cpLoc{Func: m[1], Line: n})
+		locs = append(locs, cpLoc{Func: m[1], File: m[2], Line: n})
 		if i == 0 {
 			rest := ln[len(m[0]):]
 			if parts := strings.SplitN(rest, ": ", 3); len(parts) >= 2 {
@@ -492,7 +528,11 @@ func (crashpoint) Execute(plan any, keep bool) *core.Result {
 	res := &core.Result{Counters: core.Counters{}}
 	hist := core.NewHistory(keep)
 	rd := cpRender(p)
-	disk := core.NewSimDisk([]core.DiskFile{{Path: "main/main.go", Data: []byte(rd.Text)}}, hist)
+	files := []core.DiskFile{{Path: "main/a.go", Data: []byte(rd.Text)}}
+	if rd.TextB != "" {
+		files = append(files, core.DiskFile{Path: "main/b.go", Data: []byte(rd.TextB)})
+	}
+	disk := core.NewSimDisk(files, hist)
 	disk.Rich, disk.Mute = p.Rich, true
 	run := &cpRun{p: p, rd: rd, res: res, lastAt: -1}
 	run.h = core.NewHost(p.Seed, disk, hist, run.natives)
@@ -554,6 +594,15 @@ func (crashpoint) Execute(plan any, keep bool) *core.Result {
 	if len(run.snap) > 0 && p.Funcs[run.snap[len(run.snap)-1].fn].Method {
 		res.Counters.Inc("in_method")
 	}
+	if site.File == "main/b.go" {
+		res.Counters.Inc("second_file")
+	}
+	for _, fr := range run.snap {
+		if p.Funcs[fr.fn].Variadic {
+			res.Counters.Inc("spread_call_active")
+			break
+		}
+	}
 	for _, fr := range run.snap {
 		if rd.ML[fr.callLine] {
 			res.Counters.Inc("multiline_call_active")
@@ -585,15 +634,15 @@ func (crashpoint) Execute(plan any, keep bool) *core.Result {
 	var want []cpLoc
 	top := run.snap[len(run.snap)-1]
 	if helper := map[string]string{"helper-div": "main.hdiv", "helper-attr": "main.hattr"}[site.Kind]; helper != "" {
-		want = append(want, cpLoc{Func: helper, Line: rd.HelperLine[helper]})
+		want = append(want, cpLoc{Func: helper, File: "main/a.go", Line: rd.HelperLine[helper]})
 	}
-	want = append(want, cpLoc{Func: rd.Names[top.fn], Line: site.Line})
+	want = append(want, cpLoc{Func: rd.Names[top.fn], File: site.File, Line: site.Line})
 	for i := len(run.snap) - 1; i >= 1; i-- {
 		fr := run.snap[i]
-		want = append(want, cpLoc{Func: rd.Names[fr.caller], Line: fr.callLine})
+		want = append(want, cpLoc{Func: rd.Names[fr.caller], File: rd.FuncFile[fr.caller], Line: fr.callLine})
 	}
 	if p.Entry == "eval" {
-		want = append(want, cpLoc{Func: "", Line: 1})
+		want = append(want, cpLoc{Func: "", File: "stdin", Line: 1})
 	}
 	res.Abstract = fmt.Sprintf("%s|%s|d%d|%s|opt%v|%s", site.Kind, opcode, depth, site.Ctx, !p.OptimizeOff, p.Entry)
 	hist.Add("oracle", "want", fmt.Sprint(want))
